@@ -61,9 +61,12 @@ impl Qcow2IoTokio {
         let mut file = self.file.lock().await;
 
         file.seek(SeekFrom::Start(offset)).await?;
-        let res = file.write(buf).await?;
 
-        assert!(res == buf.len());
+        // tokio hands data over in chunks of 2MB at most, and completes one
+        // write before the data has reached the file: write everything, and
+        // wait for it, so that an error is reported by this request
+        file.write_all(buf).await?;
+        file.flush().await?;
 
         Ok(())
     }
@@ -75,9 +78,19 @@ impl Qcow2IoOps for Qcow2IoTokio {
         let mut file = self.file.lock().await;
 
         file.seek(SeekFrom::Start(offset)).await?;
-        let res = file.read(buf).await?;
 
-        Ok(res)
+        // tokio reads 2MB at most each time, so only end of file makes one
+        // short read
+        let mut done = 0;
+        while done < buf.len() {
+            let res = file.read(&mut buf[done..]).await?;
+            if res == 0 {
+                break;
+            }
+            done += res;
+        }
+
+        Ok(done)
     }
 
     async fn write_from(&self, offset: u64, buf: &[u8]) -> Qcow2Result<()> {
